@@ -564,6 +564,8 @@ def gen_rc_cases(rng, count, big):
         chunks = [rng.choice([1, 2, 6, 100, 16383, 16384, 16385, rng.range(1, 40000)]) for _ in range(60)] if src == "R" and rng.chance(3, 4) else []
         reqs = [rng.choice([1, 2, 3, 100, 4096, 16384, 65536, rng.range(1, 70000)]) for _ in range(rng.range(1, 12))]
         plain = b"".join(plains)
+        if len(plain) > 20000 and sum(reqs) < 512 * len(reqs):
+            reqs.append(rng.choice([4096, 16384, 65536]))     # bound the number of calls on big inputs (the model is quadratic in it)
         h = 7
         for x in plain:
             h = (h * 257 + x + 1) % 2147483647
